@@ -200,7 +200,7 @@ class _randobj:
                     # First, assign IDs to each of the randomized fields
                     with expr_mode():
                         for f in dir(self):
-                            if not f.startswith("__") and not f.startswith("_int"):
+                            if not f.startswith("__") and not f.startswith("_int_"):
                                 fo = getattr(self, f)
                             
                                 if hasattr(fo, "_int_field_info"):
@@ -217,7 +217,7 @@ class _randobj:
                     
                                 # Now, elaborate the constraints
                         for f in dir(self):
-                            if not f.startswith("__") and not f.startswith("_int"):
+                            if not f.startswith("__") and not f.startswith("_int_"):
                                 fo = getattr(self, f)
                                 if isinstance(fo, constraint_t):
                                     clear_exprs()
@@ -432,7 +432,7 @@ def generator(T):
                 # First, assign IDs to each of the randomized fields
                 with expr_mode():
                     for f in dir(self):
-                        if not f.startswith("__") and not f.startswith("_int"):
+                        if not f.startswith("__") and not f.startswith("_int_"):
                             fo = getattr(self, f)
                         
                             if hasattr(fo, "_int_field_info"):
@@ -443,7 +443,7 @@ def generator(T):
                 
                             # Now, elaborate the constraints
                     for f in dir(self):
-                        if not f.startswith("__") and not f.startswith("_int"):
+                        if not f.startswith("__") and not f.startswith("_int_"):
                             fo = getattr(self, f)
                             if isinstance(fo, constraint_t):
                                 clear_exprs()
